@@ -22,13 +22,19 @@ def main():
         if spec[0] == "--patch":
             subprocess.check_call(["git", "-C", d + "/r", "apply", os.path.abspath(spec[1])])
         else:
-            f, old, new = spec
+          for k in range(0, len(spec), 3):
+            f, old, new = spec[k:k + 3]
             p = os.path.join(d, "r", f)
             s = open(p, newline="").read()
+            if "\r\n" in s:
+                old = old.replace("\r\n", "\n").replace("\n", "\r\n"); new = new.replace("\r\n", "\n").replace("\n", "\r\n")
             if old not in s:
                 print("MUTANT: pattern not found"); return 3
             s = s.replace(old, new, 1)
             open(p, "w", newline="").write(s)
+          if os.environ.get("MUT_TESTS"):
+            r = subprocess.run(["/venv/bin/python", "-m", "pytest", "-q", "-x", "-p", "no:cacheprovider", "tests"], cwd=d + "/r", capture_output=True, text=True)
+            print("repo tests:", r.stdout.strip().splitlines()[-1])
         rc_all = []
         for c in checks:
             env = dict(os.environ, VERIF_REPO=d + "/r")
